@@ -87,6 +87,7 @@ type CaseResult struct {
 	Funcs       []string
 	Sample      []string
 	Terms       int
+	SweepProved, SweepCandidates int
 }
 
 type KnownFinding struct {
@@ -374,6 +375,7 @@ func (r *Runner) RunCase(p *sym.Program, c Case, solver, cross *smt.Solver) (res
 	res.Funcs = in.FuncsSeen()
 	res.Sample = x.SamplePaths
 	res.Terms = ctx.NumTerms()
+	res.SweepProved, res.SweepCandidates = x.SweepProved, x.SweepCandidates
 	return
 }
 
